@@ -41,8 +41,8 @@ ASSUMPTIONS = [
     'keywords (MetaModel.new and metaclass call alternating), reads, where_eq/dict filters (alternating), serialisation, and the '
     'referential attributes of up to four associations that spell the key in lower / UPPER / Capitalized / swapped case; '
     'the metamodel of this family is defined through MetaModel.define_class / define_association (the calls the loader makes)',
-    'a constructor keyword spelled exactly like a python parameter of the constructor route (self, kind) is only sent through '
-    'the route without such a parameter (PALETTE_PARAMETER_NAMES_CHECKED = False: known quirk of the unchanged library)',
+    'constructor keywords spelled exactly like the python parameters of the constructor routes (self, kind) are sent like any '
+    'other spelling (this found F-C10d, repaired)',
 ]
 
 SQL = ('CREATE TABLE Ab (Id UNIQUE_ID, Xy STRING, R_a UNIQUE_ID);\n'
@@ -841,10 +841,9 @@ PALETTE_VALS = ['p', 'q']
 PALETTE_SLICE = 16
 PALETTE_MAX_DEPTH = 10
 # Python parameter names of MetaModel.new(self, kind, ...) and MetaClass.new/__call__(self, ...): a constructor keyword
-# spelled exactly like one of them cannot be passed at all on the unchanged /repo (TypeError: got multiple values for
-# argument 'kind'), while every other spelling of the same attribute name is accepted. Such a keyword is only sent
-# through the route that has no parameter of that name.
-PALETTE_PARAMETER_NAMES_CHECKED = False     # <<< SWITCHED OFF: genuine (minor) defect of the unchanged /repo, reported
+# spelled exactly like one of them could not be passed at all (TypeError: got multiple values for argument 'kind') while
+# every other spelling of the same attribute name was accepted: F-C10d, repaired in /repo (positional-only parameters).
+PALETTE_PARAMETER_NAMES_CHECKED = True
 PYTHON_PARAMETERS = {'model': ('self', 'kind'), 'metaclass': ('self',)}
 
 
@@ -1213,7 +1212,7 @@ def run(ctx):
             [('palette', layout) for layout in palette_layouts(ctx.tier)]
     t1 = ctx.elapsed()
     r = family_bfs(ctx, specs)
-    ctx.notes['phase_s'] = dict(names=round(t1, 1), families=round(ctx.elapsed() - t1, 1))
+    print('  phases: names %.1fs, families %.1fs' % (t1, ctx.elapsed() - t1))
     r2, r3, r4 = r['twin'], r['ref'], r['palette']
     print('  twins: states=%s depth=%d closed=%s' % (r2['per_layout'], r2['depth'], r2['closed']))
     print('  referential chain: states=%d depth=%d closed=%s' % (r3['states'], r3['depth'], r3['closed']))
@@ -1224,8 +1223,8 @@ def run(ctx):
     ctx.require(ctx.n('twin_traces') >= 3000, 'twin family: too few transitions (%d)' % ctx.n('twin_traces'))
     ctx.require(r3['states'] >= 60, 'referential family: too few states (%d)' % r3['states'])
     ctx.require(ctx.n('ref_traces') >= 2000, 'referential family: too few transitions (%d)' % ctx.n('ref_traces'))
-    for o in ('relate', 'unrelate', 'delete', 'del'):
-        ctx.require(h_has(ctx, 'ref_outcomes', (o, 'True' if o.endswith('relate') else 'ok')) or o == 'del',
+    for o in ('relate', 'unrelate', 'delete'):
+        ctx.require(h_has(ctx, 'ref_outcomes', (o, 'True' if o.endswith('relate') else 'ok')),
                     'referential family: no successful %s' % o)
     ctx.require(h_has(ctx, 'ref_outcomes', ('set', 'MetaException')), 'referential family: no rejected write')
     hs = sorted((h for (f, _, _), h in r['seen'].items() if f == 'ref'), key=lambda h: (len(h), repr(h)))
@@ -1279,7 +1278,6 @@ def coverage(ctx):
                                         accessed='all 2^n case patterns up to %d letters, six patterns beyond' % PALETTE_ALL_PATTERNS,
                                         values=PALETTE_VALS, states=ctx.n('palette_states'),
                                         transitions=ctx.n('palette_traces'),
-                                        python_parameter_names_as_constructor_keywords=PALETTE_PARAMETER_NAMES_CHECKED),
-                    phase_wall_s=ctx.notes.get('phase_s')),
+                                        python_parameter_names_as_constructor_keywords=PALETTE_PARAMETER_NAMES_CHECKED)),
         exhaustive=bool(closed) and not ctx.caps_hit,
     )
